@@ -568,7 +568,7 @@ LIG_NAMES = ["f_i", "f_f_l", "f_l", "T_h", "c_t"]
 ANCHOR_GROUPS = ["top", "bottom", "ogonek", "center", "topright"]
 
 
-def add_anchors(model, rng, n_groups=2, n_marks=3, n_ligs=1, mkmk=0.5, multi_mark=0.0, uncategorised=0.15, vary_amount=30, half=True, sparse_ok=True):
+def add_anchors(model, rng, n_groups=2, n_marks=3, n_ligs=1, mkmk=0.5, multi_mark=0.0, uncategorised=0.15, vary_amount=30, half=True, sparse_ok=True, propagate=0):
     """Mark attachment data: base/mark/ligature anchors on every layer of the chosen glyphs (positions vary per
     master), public.openTypeCategories for every glyph that takes part.  Roles: the glyphs named like combining marks
     are marks, those named like ligatures are ligatures, single letters are bases."""
@@ -631,6 +631,29 @@ def add_anchors(model, rng, n_groups=2, n_marks=3, n_ligs=1, mkmk=0.5, multi_mar
                         dx += 0.5
                     out.append({"name": n, "x": x + dx, "y": y + dy})
             layer["anchors"] = out
+    # anchor propagation: composites of exactly one base glyph (identity 2x2, per-master offset) without anchors of their own
+    # inherit the base's anchors shifted by the offset - the one case the propagation rules leave no choice in
+    if propagate:
+        first_layers = set(model["masters"][0:1] and [m["name"] for m in model["masters"] if m["layer"] is None])
+        donors = [g for g in bases if g["name"] in plan and cats.get(g["name"]) == "base" and set(g["layers"]) >= first_layers]
+        takers = [g for g in bases if g["name"] not in plan][:propagate]
+        for g in takers:
+            if not donors:
+                break
+            d = rng.choice(donors)
+            off = (rnum(rng, -100, 300), rnum(rng, -100, 200))
+            for mname in list(g["layers"]):
+                if mname not in d["layers"]:
+                    del g["layers"][mname]
+                    continue
+                layer = g["layers"][mname]
+                dx, dy = (rng.randint(-20, 20), rng.randint(-20, 20)) if mname != default else (0, 0)
+                layer["contours"] = []
+                layer["components"] = [{"base": d["name"], "xform": [1, 0, 0, 1, off[0] + dx, off[1] + dy]}]
+                layer["anchors"] = []
+            cats[g["name"]] = "base"
+        model["lib"]["com.github.googlei18n.ufo2ft.filters"] = [{"name": "propagateAnchors", "pre": True}]
+        model["propagate_anchors"] = True
     model["lib"]["public.openTypeCategories"] = cats
     return model
 
